@@ -753,18 +753,6 @@ func bigSpec(r *hx.Rng) *spec {
 	return sp
 }
 
-func specFromJobs(jobs []ajob) *spec {
-	sp := &spec{group: "replay"}
-	for _, j := range jobs {
-		g := gjob{id: j.ID}
-		for _, n := range j.Needs {
-			g.needs = append(g.needs, n.V)
-		}
-		sp.jobs = append(sp.jobs, g)
-	}
-	return sp
-}
-
 // ---- main ----------------------------------------------------------------------
 
 func main() {
@@ -790,8 +778,6 @@ func main() {
 			fmt.Println("REPLAY: property violated: the rule does not terminate on this input (20 s)")
 			os.Exit(1)
 		}
-		sp := &spec{}
-		_ = sp
 		done := make(chan *result, 1)
 		go func() { done <- evalSource(f.Workflow, 40, false) }()
 		var r *result
